@@ -124,6 +124,7 @@ def make_layer(sg, ax, rng, tables, n_orbits=None, flat=False, max_atoms=60, tri
         if not ok or sum(len(o) for o in pos) > max_atoms:
             continue
         P = np.vstack(pos)
+        P[:, ax] = (P[:, ax] + 0.5) % 1.0 - 0.5        # the layer is contiguous around 0 along the normal (K.orbit wraps into [0,1))
         cart = P @ cell
         n = len(P)
         if n > 1:
@@ -136,8 +137,10 @@ def make_layer(sg, ax, rng, tables, n_orbits=None, flat=False, max_atoms=60, tri
                 dmin = min(dmin, d.min())
             if dmin < min_dist:
                 continue
-        z = (P[:, ax] + 0.5) % 1.0 - 0.5
+        z = P[:, ax]
         thickness = float((z.max() - z.min()) * Lc)
+        if not flat and thickness < 0.05:
+            continue                          # buckled layers are asked for: keep the two classes apart
         pbc = [True, True, True]
         pbc[ax] = False
         return {"sg": sg, "axis": ax, "cell": cell.tolist(), "scaled_positions": P.tolist(), "numbers": [int(x) for x in nums],
